@@ -662,6 +662,17 @@ impl TabletsInfo {
     }
 }
 
+#[cfg(scylla_verif)]
+impl TableTablets {
+    /// Verification harness: the (first, last) token ranges currently known, in storage order.
+    pub(crate) fn verif_ranges(&self) -> Vec<(i64, i64)> {
+        self.tablet_list
+            .iter()
+            .map(|t| (t.first_token.value(), t.last_token.value()))
+            .collect()
+    }
+}
+
 #[cfg(test)]
 mod tests {
     use std::collections::{HashMap, HashSet};
